@@ -3,7 +3,7 @@ sys.path.insert(0, '/verif')
 from rv import common, worlds, oracles
 from rv.e1 import replay_history
 def chk(proj,i,obs):
-    return oracles.check_content(proj,obs)+oracles.check_runset(proj,obs)+oracles.check_exit(proj,obs)
+    return oracles.check_content(proj,obs)+oracles.check_runset(proj,obs)+oracles.check_exit(proj,obs)+oracles.check_kill(proj,obs)
 if __name__ == "__main__":
     W = worlds.curated()
     bindir = common.build_subject()
